@@ -51,9 +51,10 @@ type outReq struct {
 }
 
 type issuerSet struct {
-	seed     int64
-	t3w      map[string]*t3World
-	keyIDLen int // != 0: requests are created with a key id argument of this length (kind OddKeyID)
+	seed      int64
+	t3w       map[string]*t3World
+	keyIDLen  int  // != 0: requests are created with a key id argument of this length (kind OddKeyID)
+	zeroBlind bool // type 5: the request is created with caller-supplied blinds, the first of them zero (kind ZeroBlind)
 	// one client object per token type, constructed once and used for every
 	// request of a run (clients are meant to be long-lived objects)
 	c1 *type1.BasicPrivateClient
@@ -189,7 +190,17 @@ func (s *issuerSet) create(t, n int, key string, challenge []byte, nonces [][]by
 		iss := type5.NewBatchedPrivateIssuer(k)
 		o.pubBytes, _ = iss.TokenKey().MarshalBinary()
 		keyIDArg = s.oddKeyID(iss.TokenKeyID())
-		st, err := s.client5().CreateTokenRequest(challenge, nonces, keyIDArg, iss.TokenKey())
+		var st type5.BatchedPrivateTokenRequestState
+		var err error
+		if s.zeroBlind {
+			blinds := [][]byte{make([]byte, 32)}
+			for i := 1; i < len(nonces); i++ {
+				blinds = append(blinds, detBlind(s.seed, 5, fmt.Sprintf("zb%d", i)))
+			}
+			st, err = s.client5().CreateTokenRequestWithBlinds(challenge, nonces, keyIDArg, iss.TokenKey(), blinds)
+		} else {
+			st, err = s.client5().CreateTokenRequest(challenge, nonces, keyIDArg, iss.TokenKey())
+		}
 		o.createErr = err
 		if err == nil {
 			o.reqBytes = append([]byte{}, st.Request().Marshal()...)
@@ -347,6 +358,7 @@ func execRun(c *ctx, in ev) ev {
 	if kind == "OddKeyID" {
 		s.keyIDLen = jInt(mut["len"])
 	}
+	s.zeroBlind = kind == "ZeroBlind"
 	mkNonces := func() [][]byte {
 		ns := [][]byte{}
 		for i := 0; i < n; i++ {
@@ -838,6 +850,9 @@ func (i *interner) id(b []byte) string {
 }
 
 func detBlind(seed int64, t int, name string) []byte {
+	if name == "zero" { // the degenerate blind: not invertible, so no token can come of it - least of all a wrong one
+		return make([]byte, map[int]int{1: 48, 5: 32, 2: 256}[t])
+	}
 	switch t {
 	case 1: // P-384 scalar, 48 bytes big-endian
 		switch name {
@@ -893,6 +908,8 @@ func detSalt(seed int64, name string, arg func([]byte) []byte) []byte {
 	return arg(hashBytes(seed, "det-salt-"+name, 48))
 }
 
+var errBadToken = fmt.Errorf("finalization returned a token that does not verify")
+
 func execDet(c *ctx, in ev) []ev {
 	out := []ev{{"op": "DetNew"}}
 	reqs, toks := &interner{m: map[string]string{}, p: "q"}, &interner{m: map[string]string{}, p: "t"}
@@ -930,7 +947,8 @@ func execDet(c *ctx, in ev) []ev {
 	_ = mine
 	create := func(rw map[string]any) *pending {
 		t, key, nc, blind, salt := jInt(rw["t"]), rw["key"].(string), rw["nc"].(string), rw["blind"].(string), rw["salt"].(string)
-		pe := &pending{e: ev{"op": "Det", "t": t, "key": key, "nc": nc, "blind": blind, "salt": salt, "ok": false, "req": "", "tok": "", "err": "", "elems": []any{}}}
+		pe := &pending{e: ev{"op": "Det", "t": t, "key": key, "nc": nc, "blind": blind, "salt": salt, "ok": false, "req": "", "tok": "", "err": "", "elems": []any{},
+			"bad_token": false, "degenerate": strings.Contains(blind, "zero")}}
 		e := pe.e
 		var own [][]byte
 		p := guard(func() {
@@ -956,7 +974,7 @@ func execDet(c *ctx, in ev) []ev {
 						return nil, err
 					}
 					if iss.Verify(tok) != nil {
-						return nil, fmt.Errorf("token does not verify")
+						return nil, errBadToken
 					}
 					return tok.Marshal(), nil
 				}
@@ -980,7 +998,7 @@ func execDet(c *ctx, in ev) []ev {
 						return nil, err
 					}
 					if verifyPSS(&k.PublicKey, tok) != nil {
-						return nil, fmt.Errorf("token does not verify")
+						return nil, errBadToken
 					}
 					return tok.Marshal(), nil
 				}
@@ -1017,7 +1035,7 @@ func execDet(c *ctx, in ev) []ev {
 					var all []byte
 					for _, tk := range ts {
 						if iss.Verify(tk) != nil {
-							return nil, fmt.Errorf("token does not verify")
+							return nil, errBadToken
 						}
 						all = append(all, tk.Marshal()...)
 					}
@@ -1042,6 +1060,7 @@ func execDet(c *ctx, in ev) []ev {
 			tb, err := pe.fin()
 			if err != nil {
 				pe.e["err"] = err.Error()
+				pe.e["bad_token"] = err == errBadToken
 				return
 			}
 			pe.tok, pe.e["ok"] = tb, true
@@ -1114,7 +1133,9 @@ func execRunSeq(c *ctx, in ev) []ev {
 	var kept []tokens.Token
 	var keptBytes [][]byte
 	var oracle func(tokens.Token) bool
-	var one func(n int, challenge []byte) ([]tokens.Token, error)
+	// one prepares a complete honest exchange and returns the client's finalization as a function, so that the
+	// sequence can finalize the same response more than once (a retry)
+	var one func(n int, challenge []byte) (func() ([]tokens.Token, error), error)
 	switch t {
 	case 1:
 		k := p384Key(c.seed, "k1")
@@ -1123,7 +1144,7 @@ func execRunSeq(c *ctx, in ev) []ev {
 		oracle = func(tok tokens.Token) bool {
 			return tok.TokenType == 1 && bytes.Equal(fullEvaluate(oprf.SuiteP384, k, authInput(tok)), tok.Authenticator)
 		}
-		one = func(n int, challenge []byte) ([]tokens.Token, error) {
+		one = func(n int, challenge []byte) (func() ([]tokens.Token, error), error) {
 			st, err := type1.NewBasicPrivateClient().CreateTokenRequest(challenge, randNonce(r), iss.TokenKeyID(), iss.TokenKey())
 			if err != nil {
 				return nil, err
@@ -1135,15 +1156,17 @@ func execRunSeq(c *ctx, in ev) []ev {
 			if err != nil {
 				return nil, err
 			}
-			tok, err := st.FinalizeToken(resp)
-			return []tokens.Token{tok}, err
+			return func() ([]tokens.Token, error) {
+				tok, err := st.FinalizeToken(append([]byte{}, resp...))
+				return []tokens.Token{tok}, err
+			}, nil
 		}
 	case 2:
 		k := rsaKey(1)
 		iss := type2.NewBasicPublicIssuer(k)
 		reqObj := new(type2.BasicPublicTokenRequest)
 		oracle = func(tok tokens.Token) bool { return tok.TokenType == 2 && verifyPSS(&k.PublicKey, tok) == nil }
-		one = func(n int, challenge []byte) ([]tokens.Token, error) {
+		one = func(n int, challenge []byte) (func() ([]tokens.Token, error), error) {
 			st, err := type2.NewBasicPublicClient().CreateTokenRequest(challenge, randNonce(r), iss.TokenKeyID(), iss.TokenKey())
 			if err != nil {
 				return nil, err
@@ -1155,21 +1178,26 @@ func execRunSeq(c *ctx, in ev) []ev {
 			if err != nil {
 				return nil, err
 			}
-			tok, err := st.FinalizeToken(resp)
-			return []tokens.Token{tok}, err
+			return func() ([]tokens.Token, error) {
+				tok, err := st.FinalizeToken(append([]byte{}, resp...))
+				return []tokens.Token{tok}, err
+			}, nil
 		}
 	case 3:
 		w := newT3World(rsaKey(2), c.seed, map[string]string{"seq.example": "a", "": "b", "a-much-longer-origin-name-than-one-block.example": "c"})
 		origins := []string{"seq.example", "a-much-longer-origin-name-than-one-block.example", "", "seq.example"}
 		i := 0
 		oracle = func(tok tokens.Token) bool { return tok.TokenType == 3 && verifyPSS(w.issuer.TokenKey(), tok) == nil }
-		one = func(n int, challenge []byte) ([]tokens.Token, error) {
+		one = func(n int, challenge []byte) (func() ([]tokens.Token, error), error) {
 			i++
 			art, err := honestT3(w, p384Scalar(c.seed, "seq-client"), p384Scalar(c.seed, fmt.Sprintf("seq-blind-%d", i)), challenge, randNonce(r), origins[i%len(origins)])
 			if err != nil {
 				return nil, err
 			}
-			return []tokens.Token{art.token}, nil
+			return func() ([]tokens.Token, error) {
+				tok, err := art.state.FinalizeToken(append([]byte{}, art.resp...))
+				return []tokens.Token{tok}, err
+			}, nil
 		}
 	case 5:
 		k := ristrettoKey(c.seed, "k1")
@@ -1178,7 +1206,7 @@ func execRunSeq(c *ctx, in ev) []ev {
 		oracle = func(tok tokens.Token) bool {
 			return tok.TokenType == 5 && bytes.Equal(fullEvaluate(oprf.SuiteRistretto255, k, authInput(tok)), tok.Authenticator)
 		}
-		one = func(n int, challenge []byte) ([]tokens.Token, error) {
+		one = func(n int, challenge []byte) (func() ([]tokens.Token, error), error) {
 			nonces := [][]byte{}
 			for j := 0; j < n; j++ {
 				nonces = append(nonces, randNonce(r))
@@ -1194,14 +1222,19 @@ func execRunSeq(c *ctx, in ev) []ev {
 			if err != nil {
 				return nil, err
 			}
-			return st.FinalizeTokens(resp)
+			return func() ([]tokens.Token, error) { return st.FinalizeTokens(append([]byte{}, resp...)) }, nil
 		}
 	}
 	for i, nv := range gL(in, "ns") {
 		n := jInt(nv)
-		e := ev{"op": "SeqRun", "t": t, "i": i, "n": n, "ok": false, "count": 0, "valid": false, "err": "", "panic": ""}
+		e := ev{"op": "SeqRun", "t": t, "i": i, "n": n, "ok": false, "count": 0, "valid": false, "again_ok": true, "err": "", "panic": ""}
 		e["panic"] = guard(func() {
-			toks, err := one(n, randBytes(r, 8+i))
+			fin, err := one(n, randBytes(r, 8+i))
+			if err != nil {
+				e["err"] = err.Error()
+				return
+			}
+			toks, err := fin()
 			if err != nil {
 				e["err"] = err.Error()
 				return
@@ -1214,6 +1247,33 @@ func execRunSeq(c *ctx, in ev) []ev {
 				keptBytes = append(keptBytes, append([]byte{}, tok.Marshal()...))
 			}
 			e["valid"] = valid
+			if i%2 == 1 {
+				// a retry: the caller has used (and wiped) what the first finalization returned - those values are
+				// its own - and finalizes the same response again. Whatever that call returns must again be the
+				// request's valid tokens (or an error).
+				first, err := fin()
+				if err != nil {
+					return
+				}
+				for _, tok := range first {
+					for _, f := range [][]byte{tok.Nonce, tok.Context, tok.KeyID, tok.Authenticator} {
+						for k := range f {
+							f[k] ^= 0xa5
+						}
+					}
+				}
+				second, err := fin()
+				if err == nil {
+					for _, tok := range second {
+						if !oracle(tok) {
+							e["again_ok"] = false
+						}
+					}
+					if len(second) != n && t == 5 {
+						e["again_ok"] = false
+					}
+				}
+			}
 		})
 		out = append(out, e)
 	}
@@ -1638,6 +1698,10 @@ func genIssuance(c *ctx, emit func(ev)) {
 				for _, kl := range []int{1, 31, 33, 64} {
 					run(t, n, 16, 14, ev{"kind": "OddKeyID", "len": kl})
 				}
+				if t == 5 {
+					run(5, 1, 16, 0, ev{"kind": "ZeroBlind"})
+					run(5, 3, 16, 0, ev{"kind": "ZeroBlind"})
+				}
 				if t == 2 {
 					run(t, n, 16, 14, ev{"kind": "BigKey"})
 				}
@@ -1765,7 +1829,8 @@ func genIssuance(c *ctx, emit func(ev)) {
 		// type 5: batch compositions - an element is a function of (key, nonce, blind) wherever it stands
 		for _, key := range []string{"k1", "k2"} {
 			for _, comp := range [][2]string{{"n1+n2", "b1+b2"}, {"n1+n2", "b2+b1"}, {"n2+n1", "b2+b1"}, {"n1", "b1"}, {"n2", "b2"}, {"n1", "b2"},
-				{"n1+n2+n3", "b1+b2+one"}, {"n3+n1", "one+b1"}, {"n1+n2", "b1+b1"}, {"n1+n2", "b1+b2"}, {"n1+n2", "lead0+b2"}, {"n1+n2", "b3+b4"}} {
+				{"n1+n2+n3", "b1+b2+one"}, {"n3+n1", "one+b1"}, {"n1+n2", "b1+b1"}, {"n1+n2", "b1+b2"}, {"n1+n2", "lead0+b2"}, {"n1+n2", "b3+b4"},
+				{"n1", "zero"}, {"n1+n2", "b1+zero"}, {"n1+n2", "zero+b2"}} {
 				rows = append(rows, ev{"t": 5, "key": key, "nc": comp[0], "blind": comp[1], "salt": "s1"})
 			}
 		}
@@ -1781,6 +1846,9 @@ func genIssuance(c *ctx, emit func(ev)) {
 						}
 						// repeat one: request creation must be a pure function of its arguments
 						rows = append(rows, ev{"t": t, "key": key, "nc": nc, "blind": names[0], "salt": salt})
+						if salt == "s1" && nc == "n1" {
+							rows = append(rows, ev{"t": t, "key": key, "nc": nc, "blind": "zero", "salt": salt})
+						}
 						if t == 2 && salt == "s1" && nc == "n1" {
 							// zero-length salts (twice each, and under two blinds): still a function of the arguments
 							for _, z := range []string{"empty", "nil", "empty", "nil"} {
